@@ -381,6 +381,65 @@ Section MachineLemmas.
 End MachineLemmas.
 
 (* ---------------------------------------------------------------------------------------------- *)
+(* the environment is read anew by every construction *)
+Section GlobalLemmas.
+  Variable validate : pyval -> res pyval.
+  Variable to_py : pyval -> res pyval.
+  Variable dflt : pyval.
+  Variable lookup : bool.
+  Variable name : envset.
+  Variable path : str.
+
+  Notation gstep := (gstep validate to_py dflt lookup name path).
+  Notation grun := (grun validate to_py dflt lookup name path).
+
+  Lemma grun_app : forall a b g, grun g (a ++ b) = grun (grun g a) b.
+  Proof. intros. unfold Env.grun. apply fold_left_app. Qed.
+
+  Lemma grun_ops : forall h e s,
+    grun (e, s) (map GOp h) = (e, erun validate to_py dflt lookup name e path s h).
+  Proof.
+    induction h as [|o h IH]; intros e s; [reflexivity|].
+    cbn [map]. unfold Env.grun, Env.erun. cbn [fold_left].
+    change (fold_left (fun g o0 => fst (gstep g o0)) (map GOp h) (fst (gstep (e, s) (GOp o)))
+            = (e, fold_left (fun s0 o0 => fst (estep validate to_py dflt lookup name e path s0 o0)) h
+                            (fst (estep validate to_py dflt lookup name e path s o)))).
+    cbn [Env.gstep fst snd].
+    destruct (estep validate to_py dflt lookup name e path s o) as [s1 r]. cbn [fst].
+    apply IH.
+  Qed.
+
+  (* whatever happened before (other environments, other configurations, failed constructions), the
+     state after `GBuild e` followed by operations on that configuration is the state of the
+     one-environment machine under `e`: C14's clauses apply to every construction separately *)
+  Theorem env_per_build : forall before g e h,
+    grun g (before ++ GBuild e :: map GOp h)
+    = (e, erun validate to_py dflt lookup name e path None (OBuild :: h)).
+  Proof.
+    intros before g e h. rewrite grun_app.
+    destruct (grun g before) as [e0 s0].
+    change (GBuild e :: map GOp h) with ([GBuild e] ++ map GOp h). rewrite grun_app.
+    unfold Env.grun at 2. cbn [fold_left Env.gstep fst snd].
+    unfold Env.erun. cbn [fold_left].
+    (* OBuild does not look at the state it replaces *)
+    assert (Hb : forall s, estep validate to_py dflt lookup name e path s OBuild
+                           = estep validate to_py dflt lookup name e path None OBuild) by reflexivity.
+    rewrite (Hb s0).
+    destruct (estep validate to_py dflt lookup name e path None OBuild) as [s1 r]. cbn [fst].
+    apply grun_ops.
+  Qed.
+
+  Corollary precedence_per_build : known_F20 lookup name = false ->
+    forall before g e h,
+    grun g (before ++ GBuild e :: map GOp h)
+    = (e, spec_state validate to_py dflt name e (rev h)).
+  Proof.
+    intros HF before g e h. rewrite env_per_build.
+    rewrite (precedence_partial validate to_py dflt lookup name e path HF h). reflexivity.
+  Qed.
+End GlobalLemmas.
+
+(* ---------------------------------------------------------------------------------------------- *)
 (* F20: inside the region both clauses fail *)
 
 (* ChallengeField(default="pw", env="C"), C=envpw: the built value is the default's digest, not the
